@@ -270,3 +270,27 @@ func (v *LedgerView) LastRatedBefore(h uint32) uint32 {
 	}
 	return best
 }
+
+// readStatuses returns "entryhash@height" -> executed for every history batch row.
+func readStatuses(dbfile string) map[string]int64 {
+	out := map[string]int64{}
+	db, err := sql.Open("sqlite3", "file:"+dbfile+"?mode=ro&_busy_timeout=10000")
+	if err != nil {
+		return out
+	}
+	defer db.Close()
+	rows, err := db.Query("SELECT entry_hash, height, executed FROM pn_history_txbatch")
+	if err != nil {
+		return out
+	}
+	defer rows.Close()
+	for rows.Next() {
+		var eh []byte
+		var h uint32
+		var ex int64
+		if rows.Scan(&eh, &h, &ex) == nil {
+			out[fmt.Sprintf("%s@%d", hex.EncodeToString(eh), h)] = ex
+		}
+	}
+	return out
+}
